@@ -347,8 +347,11 @@ def table : List Entry := [
   ⟨"share.RecoverCommit|deref|s.I", "or:s == nil || s.V == nil", .guarded⟩,
   ⟨"share.RecoverCommit|deref|s.I#2", "or:s == nil || s.V == nil || s.I < 0", .guarded⟩,
   ⟨"share.RecoverCommit|deref|s.I#3", "after:s == nil || s.V == nil || s.I < 0 || n <= s.I", .guarded⟩,
+  ⟨"share.RecoverCommit|deref|s.I#4", "after:s == nil || s.V == nil || s.I < 0 || n <= s.I", .guarded⟩,
+  ⟨"share.RecoverCommit|deref|s.I#5", "after:s == nil || s.V == nil || s.I < 0 || n <= s.I", .guarded⟩,
   ⟨"share.RecoverCommit|ifacenil|shares[i].V", "", .safe "entries with V == nil are not put into x"⟩,
   ⟨"share.RecoverCommit|index|shares[i]", "", .safe "i ranges over keys of x, which are positions of shares"⟩,
+  ⟨"share.RecoverCommit|mapwrite|seen[s.I]", "made:seen", .guarded⟩,
   ⟨"share.RecoverCommit|mapwrite|x[i]", "made:x", .guarded⟩,
   ⟨"tbls.Recover|ifacenil|public.Eval(i).V", "", .safe "Eval always returns a point"⟩,
   ⟨"tbls.Recover|mapwrite|seen[i]", "made:seen", .guarded⟩,
@@ -390,7 +393,8 @@ def table : List Entry := [
 /-- guards that protect a receiver / state component rather than an extracted site -/
 def extraConds : List (String × String × String) := [
   ("aggNil", "vss.Verifier.ProcessResponse", "v.aggregator == nil"),
-  ("callIdMatch", "p2p.server.callHandler", "string(c.remoteID) != string(req.id)")
+  ("callIdMatch", "p2p.server.callHandler", "string(c.remoteID) != string(req.id)"),
+  ("rcDedup", "share.RecoverCommit", "dup")
 ]
 
 def Clause.flagName : Clause → Option String
@@ -398,22 +402,41 @@ def Clause.flagName : Clause → Option String
   | .cross _ _ f => some f
   | _ => none
 
+/-- table and inventory are both sorted by key, so on an unchanged tree entry i and site i belong together:
+the site at the same position is tried first (one comparison), any other tree falls back to the search.
+Same result as the plain search; it only spares the kernel ~170 string comparisons per entry. -/
+def zipHint : List Entry → List Gen.PanicSites.Site → List (Entry × Option Gen.PanicSites.Site)
+  | [], _ => []
+  | e :: es, [] => (e, none) :: zipHint es []
+  | e :: es, s :: ss => (e, some s) :: zipHint es ss
+
+def siteOf (e : Entry) (hint : Option Gen.PanicSites.Site) : Option Gen.PanicSites.Site :=
+  match hint with
+  | some s => if s.key == e.key then some s else Gen.PanicSites.sites.find? (fun s => s.key == e.key)
+  | none => Gen.PanicSites.sites.find? (fun s => s.key == e.key)
+
+def hinted : List (Entry × Option Gen.PanicSites.Site) := zipHint table Gen.PanicSites.sites
+
 def siteGuard (k : String) : Option String :=
   (Gen.PanicSites.sites.find? (fun s => s.key == k)).map (·.guard)
 
 def hasCond (fn cond : String) : Bool := Gen.PanicSites.conds.any (fun c => c.1 == fn && c.2 == cond)
 
 /-- the guard the table expects for a flagged site is present in the current source -/
-def entryHolds (e : Entry) : Bool :=
-  match e.clause with
-  | .flag _ => e.guard != "" && siteGuard e.key == some e.guard
+def entryHolds (eh : Entry × Option Gen.PanicSites.Site) : Bool :=
+  match eh.1.clause with
+  | .flag _ => eh.1.guard != "" && (siteOf eh.1 eh.2).map (·.guard) == some eh.1.guard
   | .cross fn cond _ => hasCond fn cond
   | _ => true
 
+/-- (flag, the entry's guard holds) for every flagged entry -/
+def flagged : List (String × Bool) :=
+  hinted.filterMap (fun eh => eh.1.clause.flagName.map (fun f => (f, entryHolds eh)))
+
 def flagOn (name : String) : Bool :=
-  let es := table.filter (fun e => e.clause.flagName == some name)
+  let es := flagged.filter (fun p => p.1 == name)
   let xs := extraConds.filter (fun x => x.1 == name)
-  (!es.isEmpty || !xs.isEmpty) && es.all entryHolds && xs.all (fun x => hasCond x.2.1 x.2.2)
+  (!es.isEmpty || !xs.isEmpty) && es.all (·.2) && xs.all (fun x => hasCond x.2.1 x.2.2)
 
 /-! ### the way of a chain event (regenerated facts `eventFlow`, `loopSubs`, `loopCases`) -/
 
@@ -472,7 +495,7 @@ def Cfg.current : Cfg :=
     findPubVss := flagOn "findPubVss", aggNil := flagOn "aggNil", toBigLen := flagOn "toBigLen",
     qloopOk := flagOn "qloopOk", qloopCast := flagOn "qloopCast", rsNil := flagOn "rsNil", rsMake := flagOn "rsMake",
     groupInfoIds := flagOn "groupInfoIds", byte32Len := flagOn "byte32Len", crRand := flagOn "crRand", bootReq := flagOn "bootReq", secNil := flagOn "secNil", feCast := flagOn "feCast", evFlow := flowOK,
-    sigIdxLen := flagOn "sigIdxLen", recoverDedup := flagOn "recoverDedup", anyNil := flagOn "anyNil",
+    sigIdxLen := flagOn "sigIdxLen", recoverDedup := flagOn "recoverDedup", rcDedup := flagOn "rcDedup", anyNil := flagOn "anyNil",
     ridCast := flagOn "ridCast", ridLen := flagOn "ridLen", readSize := flagOn "readSize", mdNil := flagOn "mdNil", dispReplyNil := flagOn "dispReplyNil", callRemoveNil := flagOn "callRemoveNil", callIdMatch := flagOn "callIdMatch",
     listenName := flagOn "listenName", listenCast := flagOn "listenCast", lookupName := flagOn "lookupName" }
 
@@ -492,8 +515,10 @@ def checkableCls : List String := ["nil", "len", "ok", "read", "defer-made", "ma
 
 /-- every `.guarded` entry has, in the regenerated inventory, a guard of a sufficient class -/
 def guardedOK : Bool :=
-  table.all (fun e => match e.clause with
-    | .guarded => Gen.PanicSites.sites.any (fun s => s.key == e.key && s.guard == e.guard && checkableCls.contains s.cls)
+  hinted.all (fun eh => match eh.1.clause with
+    | .guarded => match siteOf eh.1 eh.2 with
+      | some s => s.guard == eh.1.guard && checkableCls.contains s.cls
+      | none => false
     | _ => true)
 
 /-- (modelled or flagged, safe by extracted guard, safe by prose argument) -/
